@@ -14,7 +14,8 @@ Definition optN_eqb (a b : option N) : bool :=
 
 Definition ppc_eqb (a b : ppc) : bool :=
   match a, b with
-  | PNone, PNone | PRead, PRead | PGot, PGot | PSend, PSend | PC1, PC1 | PC2, PC2 | PC3, PC3 | PDone, PDone => true
+  | PNone, PNone | PRead, PRead | PC1, PC1 | PC2, PC2 | PC3, PC3 | PDone, PDone => true
+  | PGot n, PGot m | PSend n, PSend m => n =? m
   | _, _ => false
   end.
 
@@ -65,8 +66,9 @@ Definition event_eqb (a b : event) : bool :=
   | ERecvErr, ERecvErr => true
   | EHookErr s, EHookErr s' => s =? s'
   | EDial s k, EDial s' k' => (s =? s') && optN_eqb k k'
-  | EWrite k s o, EWrite k' s' o' | ESend k s o, ESend k' s' o' => (k =? k') && (s =? s') && Bool.eqb o o'
-  | ERead k o, ERead k' o' => (k =? k') && Bool.eqb o o'
+  | EWrite k s o, EWrite k' s' o' => (k =? k') && (s =? s') && Bool.eqb o o'
+  | ESend k s o n, ESend k' s' o' n' => (k =? k') && (s =? s') && Bool.eqb o o' && (n =? n')
+  | ERead k o n, ERead k' o' n' => (k =? k') && Bool.eqb o o' && (n =? n')
   | EClose k, EClose k' => k =? k'
   | ELogClose s, ELogClose s' => s =? s'
   | EAdvance d, EAdvance d' => d =? d'
@@ -81,11 +83,17 @@ Definition event_eqb (a b : event) : bool :=
    DialFunc, i.e. at RInit on an entry whose closed flag is clear.  initConn holds connLock from the closed check
    to the socket install, so the whole of it is the one action ADial / AHookErr taken when the call returns: time
    passes and sweeps run with the receive loop at RInit, and no CloseWithErr on that entry can come in between
-   (a log in which the entry is reported closed and then dialed has no run). *)
-Definition quiescent (slow_dial : bool) (s : state) : bool :=
+   (a log in which the entry is reported closed and then dialed has no run);
+   or (slow_close: the history makes the fake socket Close() of the FINAL cleanup sleep on the fake clock before it
+   takes effect) the receive loop is inside cleanup(false) about to run part 1 of CloseWithErr on one of the
+   entries still on its list: CloseWithErr holds connLock from the closed check to conn.Close() returning, the
+   whole of it is the one action AClose1 taken when the fake Close() takes effect, so time passes and the sweeper's
+   ticks are taken with the receive loop at RClose (todo, None) true, todo not empty. *)
+Definition quiescent (slow_dial slow_close : bool) (s : state) : bool :=
   (match rl s with
    | RWait | RDone => true
    | RClose (_, Some (_, true)) _ => true
+   | RClose (_ :: _, None) true => slow_close
    | RInit e _ => slow_dial && match nth_error (heap s) e with Some en => negb (e_closed en) | None => false end
    | _ => false
    end) &&
@@ -125,10 +133,33 @@ Definition norm (s : state) : state :=
   let s2 := match sw s1 with SClose (todo, cur) => sw_after s1 (filter (is_open s1) todo, cur) | _ => s1 end in
   match rl s2 with RClose (todo, cur) x => rl_after s2 (filter (is_open s2) todo, cur) x | _ => s2 end.
 
+(* (4) once ReceiveMessage has failed nobody looks a session id up any more: the table is only read by the snapshots of
+   cleanup() - from which (3) drops every closed entry anyway - and by the final count.  So the table delete that ends
+   CloseWithErr (always enabled once logger.Close has returned) commutes with everything that follows, and it is taken
+   at once - unless the history makes the fake logger.Close sleep (slow_log), where time passes between the two. *)
+Definition exiting_rl (s : state) : bool :=
+  match rl s with RSnap | RDone | RClose _ true => true | _ => false end.
+
+Definition try_act (a : action) (s : state) : state :=
+  match step 0 s a with Some (s', _) => s' | None => s end.
+
+Definition eager_del (s : state) : state :=
+  if exiting_rl s then
+    fold_left (fun st e => try_act (ACloseDel (TRP e)) st) (seq 0 (length (heap s)))
+              (try_act (ACloseDel TSW) (try_act (ACloseDel TRL) s))
+  else s.
+
+Definition normx (slow_log : bool) (s : state) : state :=
+  let s1 := norm s in
+  if slow_log then s1 else if exiting_rl s1 then norm (eager_del s1) else s1.
+
 Section Acc.
 Variable timeout : N.
 Variable allow_drop : bool.   (* false when the harness's policy allows every destination *)
 Variable slow_dial : bool.    (* true when the history contains slow hooks / dials *)
+Variable slow_close : bool.   (* true when the history contains slow socket closes in the final cleanup *)
+Variable slow_log : bool.     (* true when the history contains slow logger.Close calls *)
+Notation norm := (normx slow_log).
 Variable cfuel : nat.         (* bound on the number of tau rounds between two visible events *)
 
 Definition idxs (s : state) : list nat := seq 0 (length (heap s)).
@@ -151,8 +182,8 @@ Definition cand_vis (s : state) (ev : event) : list action :=
   | EDial _ None => [ADial false]
   | EDial _ (Some _) => [ADial true]
   | EWrite _ _ ok => [AWrite ok]
-  | ERead _ ok => map (fun e => ARead e ok) (idxs s)
-  | ESend _ _ ok => map (fun e => ASend e ok) (idxs s)
+  | ERead _ ok n => map (fun e => ARead e ok n) (idxs s)
+  | ESend _ _ ok _ => map (fun e => ASend e ok) (idxs s)
   | EClose _ => flat_map (fun e => [AClose1 TRL e; AClose1 TSW e; AClose1 (TRP e) e]) (idxs s)
   | ELogClose _ => [ACloseLog TRL; ACloseLog TSW] ++ map (fun e => ACloseLog (TRP e)) (idxs s)
   | EAdvance d => [AAdvance d]
@@ -191,12 +222,12 @@ Fixpoint sim (St : list state) (tr : list item) (i : N) : list state * option N 
   match tr with
   | [] => (St, None)
   | Quiet :: t =>
-      match filter (quiescent slow_dial) St with
+      match filter (quiescent slow_dial slow_close) St with
       | [] => ([], Some i)
       | S1 => sim S1 t (i + 1)
       end
   | Ev ev :: t =>
-      let S0 := match ev with EAdvance _ => filter (quiescent slow_dial) St | _ => St end in
+      let S0 := match ev with EAdvance _ => filter (quiescent slow_dial slow_close) St | _ => St end in
       let S1 := close_set (add_new [] [] (flat_map (vis_succ ev) S0)) in
       match S1 with
       | [] => ([], Some i)
@@ -230,8 +261,8 @@ Fixpoint monitor (owners : list (N * N)) (closed : list N) (tr : list event) : b
       match owner_of k owners with Some _ => false | None => monitor ((k, s) :: owners) closed t end
   | EWrite k s ok :: t =>
       optN_eqb (owner_of k owners) (Some s) && (negb ok || negb (existsb (N.eqb k) closed)) && monitor owners closed t
-  | ESend k s _ :: t => optN_eqb (owner_of k owners) (Some s) && monitor owners closed t
-  | ERead k ok :: t => (negb ok || negb (existsb (N.eqb k) closed)) && monitor owners closed t
+  | ESend k s _ _ :: t => optN_eqb (owner_of k owners) (Some s) && monitor owners closed t
+  | ERead k ok _ :: t => (negb ok || negb (existsb (N.eqb k) closed)) && monitor owners closed t
   | EClose k :: t => negb (existsb (N.eqb k) closed) && monitor owners (k :: closed) t
   | _ :: t => monitor owners closed t
   end.
@@ -239,11 +270,11 @@ Fixpoint monitor (owners : list (N * N)) (closed : list N) (tr : list event) : b
 Definition events_of (tr : list item) : list event :=
   flat_map (fun i => match i with Ev e => [e] | Quiet => [] end) tr.
 
-Inductive case := CHist (timeout : N) (count : N) (slow_dial : bool) (tr : list item).
+Inductive case := CHist (timeout : N) (count : N) (slow_dial slow_close slow_log : bool) (tr : list item).
 
 Definition check (c : case) : bool :=
   match c with
-  | CHist timeout count slow tr => monitor [] [] (events_of tr) && accepts timeout false slow 60 tr count
+  | CHist timeout count slow slowc slowl tr => monitor [] [] (events_of tr) && accepts timeout false slow slowc slowl 60 tr count
   end.
 
 Definition mismatches (l : list case) : list nat := mism_from check 0 l.
@@ -257,10 +288,10 @@ Definition Dk (s k : N) := Ev (EDial s (Some k)).
 Definition Df (s : N) := Ev (EDial s None).
 Definition Wk (k s : N) := Ev (EWrite k s true).
 Definition Wf (k s : N) := Ev (EWrite k s false).
-Definition Gk (k : N) := Ev (ERead k true).
-Definition Gf (k : N) := Ev (ERead k false).
-Definition Sk (k s : N) := Ev (ESend k s true).
-Definition Sf (k s : N) := Ev (ESend k s false).
+Definition Gk (k n : N) := Ev (ERead k true n).
+Definition Gf (k : N) := Ev (ERead k false 0).
+Definition Sk (k s n : N) := Ev (ESend k s true n).
+Definition Sf (k s n : N) := Ev (ESend k s false n).
 Definition Cl (k : N) := Ev (EClose k).
 Definition Lc (s : N) := Ev (ELogClose s).
 Definition Ad (d : N) := Ev (EAdvance d).
@@ -273,17 +304,17 @@ Definition Q := Quiet.
 Definition slow_dial_log : list item :=
   [Q;Q;Rc 7;Q;Ad 1000;Ad 1000;Ad 1000;Dk 7 0;Wk 0 7;Cl 0;Lc 7;Gf 0;Ad 1000;Q;Rc 7;Dk 7 1;Wk 1 7;Q;
    Ad 1000;Ad 1000;Ad 1000;Cl 1;Lc 7;Gf 1;Ad 100;Re;Q;Ad 900;Ad 1000;Ad 600;Q].
-Example slow_dial_accepted : check (CHist 2000 0 true slow_dial_log) = true.
-Proof. vm_compute. reflexivity. Qed.
+Example slow_dial_accepted : check (CHist 2000 0 true false true slow_dial_log) = true /\ check (CHist 2000 0 true false false slow_dial_log) = true.
+Proof. vm_compute. split; reflexivity. Qed.
 
 (* Recorded from a tree whose initConn releases connLock during the dial and does not look at the closed flag again:
    the session is reported closed inside the dial, then the dial installs socket 0 into the dead entry (never
    closed, its reply loop keeps serving it).  ADial is atomic with the closed check, so this log has no run: the
    acceptor is stuck at the dial record (index 8). *)
 Definition slow_dial_close_inside_log : list item :=
-  [Q;Q;Rc 7;Q;Ad 1000;Ad 1000;Ad 1000;Lc 7;Dk 7 0;Wk 0 7;Ad 1000;Q;Rc 7;Dk 7 1;Wk 1 7;Gk 0;Sk 0 7;Q;
+  [Q;Q;Rc 7;Q;Ad 1000;Ad 1000;Ad 1000;Lc 7;Dk 7 0;Wk 0 7;Ad 1000;Q;Rc 7;Dk 7 1;Wk 1 7;Gk 0 8;Sk 0 7 8;Q;
    Ad 1000;Ad 1000;Ad 1000;Cl 1;Lc 7;Gf 1;Ad 100;Re;Q;Ad 900;Ad 1000;Ad 600;Q].
 Example slow_dial_close_inside_rejected :
-  check (CHist 2000 0 true slow_dial_close_inside_log) = false /\
-  stuck_at 2000 false true 60 slow_dial_close_inside_log = Some 8.
+  check (CHist 2000 0 true false true slow_dial_close_inside_log) = false /\
+  stuck_at 2000 false true false true 60 slow_dial_close_inside_log = Some 8.
 Proof. vm_compute. split; reflexivity. Qed.
